@@ -93,7 +93,16 @@ CLAIMED["C02"] = {
             "{(p,c,2) | p stored, two level-1 steps} with no duplicates (import_relations_exact); any permutation of the "
             "lines gives the same relation set (order_independent); children/parents return exactly the stored rows "
             "related at the requested level, each once, and parents is the inverse of children (relation_query_exact, "
-            "parents_inverse); no feature is its own relative on acyclic input (not_self). Correspondence end-to-end "
+            "parents_inverse); no feature is its own relative on acyclic input (not_self). For arbitrary query arguments "
+            "(featuretype string or collection, strand, limit, order_by, reverse) children/parents return exactly the "
+            "related stored rows that match, each once, sorted by the requested keys (in input order without order_by), "
+            "and parents stays the inverse (relation_query_exact_q, relation_query_sorted, relation_query_unordered, "
+            "relation_query_featuretype, relation_query_limit_exact, parents_inverse_q). The update path: create_db of a "
+            "first batch followed by any number of update() calls (any strategy and dialect per batch, Parent values "
+            "pointing across batches in both directions) yields the same rows in the same order and the same relation set "
+            "as one create_db of the concatenation, i.e. the Parent graph of the union, without duplicate rows "
+            "(update_preserves_relspec, update_equiv_create, updates_equiv_create, updates_relation_query_exact). "
+            "Correspondence end-to-end "
             "(the model imports the same text) on DAGs of depth <= 4 under all permutations of <= 6 lines; oracle: set "
             "algebra on the Parent attributes, incl. featuretype/order_by arguments and iter_by_parent_childs.",
     "note": "Trusted: Lean kernel + standard axioms; the list model of the sqlite tables (PRIMARY KEY, INSERT OR IGNORE, "
@@ -174,8 +183,14 @@ CLAIMED["C10"] = {
             "back and re-read on reopen, and no generated key is ever handed out twice, across bases and reopenings "
             "(counters_monotone, reopen_counters, keys_never_recycled with injectivity of the decimal rendering); with "
             "make_backup the .bak equals the pre-operation file for every write op, every failure position and every "
-            "possible effect of the failed write on the main file (backup_complete). Partial: the refinement covers "
-            "updates without key collisions (collisions are C05's theorems) and the GFF importer; the state of the main "
+            "possible effect of the failed write on the main file (backup_complete). Updates WITH key collisions refine "
+            "the reference for every merge_strategy: warning keeps the first arrival, replace the last at the first "
+            "position, create_unique appends under fresh <key>_n and advances exactly those counters, error aborts with "
+            "ValueError, merge refines the grouping reference of C05 (update_refines_spec_strategies, "
+            "update_strategies_levels, update_error_collision, update_merge_refines_spec; the level-2 closure is "
+            "preserved). GTF updates: create + update equals create from the concatenated file when gene/transcript "
+            "inference is disabled (update_after_create_gtf); Partial: with inference ON the re-derivation during update "
+            "is not covered by a theorem (stated as update_gtf_exact_full); the state of the main "
             "file after a failed update is left unspecified. Correspondence: exhaustive depth-2 histories over a 9-op "
             "alphabet plus random depth <= 8 on file databases, full table dump after every step; oracle: independent "
             "dict/set reference, counter table vs keys handed out, .bak comparison with the source failing at every "
